@@ -466,6 +466,8 @@ def verdict(mod, merged, tier, seed, wall, workdir, replay=None):
             f'{k}={v:.3g}' for k, v in sorted(merged['margins'].items())))
 
     if new_keys:
+        for i in merged['inconclusive'][:3]:
+            print(f"(also INCONCLUSIVE: {i['reason'][:300]})")
         import shutil
         shutil.rmtree(workdir, ignore_errors=True)
         return 1
